@@ -25,6 +25,10 @@ type Violation struct {
 
 // Run collects what one child process (one case) observed.
 type Run struct {
+	// KeyMap, if set, renames or drops (keep == false) every violation key before it is recorded: a check that
+	// borrows another property's director keeps only the relations that belong to its own statement.
+	KeyMap func(key string) (newKey string, keep bool) `json:"-"`
+
 	mu           sync.Mutex
 	Property     string           `json:"property"`
 	Tier         string           `json:"tier"`
@@ -141,6 +145,13 @@ func (r *Run) Op(f string, a ...any) {
 
 // Violation records a breach. If key matches a known finding it is recorded as known instead.
 func (r *Run) Violation(key string, detail any, f string, a ...any) {
+	if r.KeyMap != nil {
+		nk, keep := r.KeyMap(key)
+		if !keep {
+			return
+		}
+		key = nk
+	}
 	r.mu.Lock()
 	defer r.mu.Unlock()
 	r.seenViol[key]++
